@@ -306,6 +306,17 @@ func graphKey(d *sbom.Document) string {
 	return hx.RefKey(d.GetNodeList(), false)
 }
 
+func distinctDeclared(ids []string) bool {
+	seen := map[string]bool{}
+	for _, id := range ids {
+		if seen[id] {
+			return false
+		}
+		seen[id] = true
+	}
+	return true
+}
+
 func parseAuto(data []byte) (*sbom.Document, error) { return readDoc(data) }
 func parseAs(data []byte, f formats.Format) (*sbom.Document, error) {
 	return reader.New().ParseStreamWithOptions(bytes.NewReader(data), &reader.Options{Format: f})
@@ -322,6 +333,12 @@ func c05Property(t *rapid.T) {
 	base := g.Root.Encode(hx.EncOpts{Indent: "  "})
 	doc, err := parseAuto(base)
 	if err != nil {
+		// the statement is about *successfully parsed* documents: a parser may refuse input (duplicate identifiers,
+		// references that do not resolve). Plain documents must parse, otherwise nothing here would be exercised.
+		if !distinctDeclared(g.Declared) || !g.Resolving {
+			hx.Class("generated_document_rejected(duplicate ids or unresolved references)")
+			return
+		}
 		t.Fatalf("schema-valid %s document rejected: %v\n%s", g.Kind, err, trunc(string(base), 2000))
 	}
 	declared := map[string]int{}
